@@ -243,7 +243,7 @@ func (rp *replayer) judge(c *Case, rt string, ti *tinfo, oc outcome, xs []float6
 				return
 			}
 			if !(math.Abs(float64(oc.o.i)-v) < 1+tol) {
-				rp.mismatch(c, rt, what, impl, order, vh.M{"observed": oc.o.String(), "expected_value": v, "tol": 1 + tol, "term": t.String()})
+				rp.mismatch(c, rt, what, impl, order, vh.M{"observed": oc.o.String(), "expected_value": fs(v), "tol": fs(1 + tol), "term": t.String()})
 			} else {
 				rp.count("term_int_ok")
 			}
@@ -259,7 +259,7 @@ func (rp *replayer) judge(c *Case, rt string, ti *tinfo, oc outcome, xs []float6
 		}
 		tol += minf * u
 		if !(math.Abs(oc.o.f-v) <= tol) {
-			rp.mismatch(c, rt, what, impl, order, vh.M{"observed": oc.o.f, "expected_value": v, "tol": tol, "term": t.String()})
+			rp.mismatch(c, rt, what, impl, order, vh.M{"observed": fs(oc.o.f), "expected_value": fs(v), "tol": fs(tol), "term": t.String()})
 			return
 		}
 		rp.count("term_float_ok")
@@ -271,7 +271,7 @@ func (rp *replayer) judge(c *Case, rt string, ti *tinfo, oc outcome, xs []float6
 		}
 		if prev, ok := rp.cross[key]; ok {
 			if !(math.Abs(prev.v-oc.o.f) <= prev.tol+tol) {
-				rp.mismatch(c, rt, "cross", impl, order, vh.M{"observed": oc.o.f, "other": prev.v, "other_instance": prev.who, "tol": prev.tol + tol})
+				rp.mismatch(c, rt, "cross", impl, order, vh.M{"observed": fs(oc.o.f), "other": fs(prev.v), "other_instance": prev.who, "tol": fs(prev.tol + tol)})
 			} else {
 				rp.count("cross_ok")
 			}
@@ -282,7 +282,11 @@ func (rp *replayer) judge(c *Case, rt string, ti *tinfo, oc outcome, xs []float6
 	}
 	// exact value
 	if !matchExact(exp, oc.o) {
-		rp.mismatch(c, rt, "value", impl, order, vh.M{"observed": oc.o.String()})
+		what := "value"
+		if c.Dev != nil && c.Dev.IsNumber() && matchExact(*c.Dev, oc.o) {
+			what = "known_deviation" // equals the modelled known deviation
+		}
+		rp.mismatch(c, rt, what, impl, order, vh.M{"observed": oc.o.String()})
 		return
 	}
 	rp.count("exact_ok")
@@ -508,9 +512,6 @@ func (rp *replayer) runReceiverOp(c *Case) {
 						extra = []interface{}{newReceiver(c.R)}
 					case "Mlgamma":
 						extra = []interface{}{int(c.Par.Int64())}
-					case "Set":
-						skip = true
-						return
 					}
 					var res []reflect.Value
 					var ok bool
@@ -525,6 +526,8 @@ func (rp *replayer) runReceiverOp(c *Case) {
 					}
 					if len(res) == 1 {
 						ret, _ = res[0].Interface().(ad.ConstScalar)
+					} else if len(res) == 0 {
+						ret = r // SET has no result
 					}
 				}
 				oc.o = read(r, ti)
@@ -693,12 +696,17 @@ func (rp *replayer) runSelf(c *Case) {
 
 func (rp *replayer) runSetter(c *Case) {
 	ti := types[c.R]
-	v := c.Args[0].V
+	var v Val
+	if len(c.Args) > 0 {
+		v = c.Args[0].V
+	}
 	var oc outcome
 	oc.kind = "value"
 	oc.panicMsg = vh.Try(func() {
 		r := newReceiver(c.R)
 		switch c.Op {
+		case "Reset":
+			r.Reset()
 		case "SetInt8":
 			r.SetInt8(int8(v.Int64()))
 		case "SetInt16":
@@ -962,3 +970,6 @@ func imin(a, b int) int {
 	}
 	return b
 }
+
+// fs formats a float for a JSON detail (NaN and Inf are not JSON numbers)
+func fs(x float64) string { return strconv.FormatFloat(x, 'g', 17, 64) }
